@@ -39,6 +39,9 @@ def tree_hash(repo=REPO):
         p = os.path.join(repo, fn)
         if os.path.exists(p):
             h.update(open(p, 'rb').read())
+    nd = os.path.join(os.path.dirname(os.path.dirname(os.path.abspath(__file__))), 'native')     # the helper's own sources
+    for fn in sorted(os.listdir(nd)):
+        h.update(open(os.path.join(nd, fn), 'rb').read())
     return h.hexdigest()[:20]
 
 
